@@ -471,6 +471,13 @@ def rule_splits_append_only(db, chk, cfg, rule="SPLITS.append-only"):
                         (l.get("kind") == "MemberExpr" and l.get("name") == "splits" and "vector<" in dqt(l)):
                     owner = canon(kids(l)[0]) if kids(l) else "this"
                     r = _u(kids(x)[1])
+                    if r.get("kind") == "DeclRefExpr":
+                        # a local that was initialised with a fresh list stands for that allocation
+                        d = db.by_id.get(r.get("referencedDecl", {}).get("id"))
+                        if d is not None and d.get("kind") == "VarDecl":
+                            init = [c for c in kids(d) if isinstance(c, dict) and c.get("kind")]
+                            if init and _u(init[-1]).get("kind") == "CXXNewExpr":
+                                r = _u(init[-1])
                     n += 1
                     ok = False
                     why = ""
